@@ -350,15 +350,17 @@ DDP — to the real parser and compares the trees. -/
 open DDP.LadderParse in
 /-- the table computed from the source is the documented one: ten chain rungs; `oder` loosest, then `und`, the three
 `logisch` operators, three rungs further (equality, comparison, shifts) `plus / minus / verkettet mit`, then
-`mal / durch / modulo` -/
+`mal / durch / modulo`; the four comparisons on rung 6 and the two shifts on rung 7 are the operators with a closing word -/
 theorem chain_table_from_source : ddpTbl.n = 10 ∧
-    (List.range 12).map ddpTbl.lv = [0, 1, 2, 3, 4, 8, 8, 8, 9, 9, 9, 10] := by decide
+    (List.range 18).map ddpTbl.lv = [0, 1, 2, 3, 4, 8, 8, 8, 9, 9, 9, 6, 6, 6, 6, 7, 7, 10] ∧
+    (List.range 18).map ddpTbl.cl = [false, false, false, false, false, false, false, false, false, false, false,
+                                     true, true, true, true, true, true, false] := by decide
 
 open DDP.LadderParse in
 /-- … and these are the numbers the generator's printer parenthesises with: `P_x - P_OR` -/
 theorem chain_table_is_generator_table :
     (chainOps.map (fun op => (buildersOf op).head?.bind level)).map (·.map (· - 3)) =
-      (List.range 11).map (fun o => some (ddpTbl.lv o)) := by decide
+      (List.range 17).map (fun o => some (ddpTbl.lv o)) := by decide
 
 open DDP.LadderParse in
 /-- every rung of the table is one of the loops `left_chains` found in the source: rung `k` of the model is the `k`-th
@@ -436,7 +438,7 @@ example : pp ddpTbl 0 (.bin 6 (.atom 1) (.bin 6 (.atom 2) (.atom 3))) =
 example : pp ddpTbl 0 (.un 0 (.bin 1 (.atom 1) (.atom 2))) = [.uop 0, .lp, .atom 1, .bop 1, .atom 2, .rp] ∧
     pp ddpTbl 0 (.bin 1 (.un 0 (.atom 1)) (.atom 2)) = [.uop 0, .atom 1, .bop 1, .atom 2] := by decide
 /-- the table matters: with `mal` moved to the rung of `plus` the same tokens give another tree -/
-example : parseAll ⟨10, fun o => if o = 8 then 8 else ddpTbl.lv o⟩ [.atom 1, .bop 5, .atom 2, .bop 8, .atom 3] =
+example : parseAll ⟨10, fun o => if o = 8 then 8 else ddpTbl.lv o, ddpTbl.cl⟩ [.atom 1, .bop 5, .atom 2, .bop 8, .atom 3] =
     some (.bin 8 (.bin 5 (.atom 1) (.atom 2)) (.atom 3)) := by decide
 /-- `1, falls a, ansonsten 2, falls b, ansonsten 3` is `1, falls a, ansonsten (2, falls b, ansonsten 3)`: a chain of conditional
 expressions nests to the right and is spelled without parentheses; the left-nested tree needs them -/
@@ -459,6 +461,15 @@ example : parseAll ddpTbl [.entw, .atom 1, .bop 1, .atom 2, .oderk, .atom 3, .bo
     ppI ddpTbl (.bin 1 (.xor (.atom 1) (.atom 2)) (.atom 3)) = [.lp, .entw, .atom 1, .oderk, .atom 2, .rp, .bop 1, .atom 3] ∧
     parseAll ddpTbl [.entw, .atom 1, .oderk, .atom 2, .falls, .atom 7, .sonst, .atom 3] =
       some (.ite (.xor (.atom 1) (.atom 2)) (.atom 7) (.atom 3)) := by decide
+/-- comparisons and shifts close behind their right operand: `a größer als b plus 1 ist` compares `a` with `b plus 1`;
+`a um 2 Bit nach Links verschoben kleiner als b ist` shifts first; a missing or foreign closing word is rejected -/
+example : parseAll ddpTbl [.atom 1, .bop 11, .atom 2, .bop 5, .atom 3, .cls 11] =
+      some (.bin 11 (.atom 1) (.bin 5 (.atom 2) (.atom 3))) ∧
+    parseAll ddpTbl [.atom 1, .bop 15, .atom 2, .cls 15, .bop 12, .atom 3, .cls 12] =
+      some (.bin 12 (.bin 15 (.atom 1) (.atom 2)) (.atom 3)) ∧
+    ppI ddpTbl (.bin 12 (.bin 15 (.atom 1) (.atom 2)) (.atom 3)) = [.atom 1, .bop 15, .atom 2, .cls 15, .bop 12, .atom 3, .cls 12] ∧
+    ppI ddpTbl (.bin 15 (.atom 1) (.bin 12 (.atom 2) (.atom 3))) = [.atom 1, .bop 15, .lp, .atom 2, .bop 12, .atom 3, .cls 12, .rp, .cls 15] ∧
+    parseAll ddpTbl [.atom 1, .bop 11, .atom 2] = none ∧ parseAll ddpTbl [.atom 1, .bop 11, .atom 2, .cls 12] = none := by decide
 /-- ill-formed sequences are rejected, not repaired -/
 example : parseAll ddpTbl [.atom 1, .bop 5] = none ∧ parseAll ddpTbl [.atom 1, .atom 2] = none ∧
     parseAll ddpTbl [.lp, .atom 1] = none ∧ parseAll ddpTbl [.bop 5, .atom 1] = none ∧
